@@ -294,38 +294,24 @@ Proof. exact bstep_to_frame. Qed.
 Print Assumptions c16_frame_separate.
 
 (* ---------- who owns the key and IV buffers ----------
-   The model's constructors (new_crypt, new_direct) are functions of VALUES: they cannot modify
-   the key / iv they are given, and no step of an instance reads the caller's key buffer again
-   (the key is consumed by the constructor).  The block-cipher wrappers of the code do keep the
-   caller's IV slice (c.iv = iv, no copy), so each call reads what that buffer holds at the
-   time; istep_env takes that content (ivnow) as an argument.
-   c16_owner_semantics: whatever the IV buffer holds at the call, the output is CFB under the
-   key fixed at construction and THAT content - nothing else of the caller's memory matters.
-   c16_owner_iv_partial: if the caller leaves the IV buffer alone, istep_env is istep, so all
-   theorems above apply.
-   c16_owner_iv_refuted: "an instance does not depend on its argument buffers after the
-   constructor returned" is FALSE for the IV of the block ciphers on the current tree (a
-   caller that reuses its IV buffer changes every later packet); recorded as a known finding,
-   not repaired here (the one-line repair `iv: append([]byte(nil), iv...)` in the five
-   constructors is the coordinator's call: it touches lines the kept seeded patches edit). *)
-Theorem c16_owner_semantics : forall BC KS c k iv cr ivnow o,
-  cr_ok (cid_bs c) cr -> cid_bs c <= length ivnow ->
-  exists cr', istep_env BC KS (IBlock c k iv cr) ivnow o =
-              Some (cfb_op (cid_bs c) (BC c k) ivnow o, IBlock c k iv cr') /\ cr_ok (cid_bs c) cr'.
-Proof. exact owner_semantics. Qed.
-Print Assumptions c16_owner_semantics.
-
-Theorem c16_owner_iv_partial : forall BC KS i o,
-  istep_env BC KS i (acc_iv i) o = istep BC KS i o.
-Proof. exact owner_unchanged_iv. Qed.
-Print Assumptions c16_owner_iv_partial.
-
-Theorem c16_owner_iv_refuted :
-  exists BC KS name key iv ivnow m i,
-    new_crypt name key iv = Some i /\ length ivnow = length iv /\
-    option_map fst (istep_env BC KS i ivnow (Enc m)) <> option_map fst (istep BC KS i (Enc m)).
-Proof. exact owner_iv_refuted. Qed.
-Print Assumptions c16_owner_iv_refuted.
+   "An equally keyed instance": an instance is keyed by the VALUES of key and IV at the time it
+   was constructed.  The constructor leaves the caller's buffers as they were, and whatever the
+   caller writes into its key or IV buffer afterwards, between any calls (reading the next
+   handshake into it, wiping it), every output is exactly what the calls alone give on the
+   instance made from the original values - hence, by the theorems above, standard CFB under
+   the key and IV of construction.
+   (On the tree before the repair 50b8642 the block-cipher wrappers kept the caller's IV slice
+   and this failed: corpus/C16/ownership-iv.sx.) *)
+Theorem c16_owner_values : forall BC KS name keybuf ivbuf w (ops : list wop),
+  wnew name keybuf ivbuf = Some w ->
+  (w_key w = keybuf /\ w_iv w = ivbuf /\ new_crypt name keybuf ivbuf = Some (w_inst w)) /\
+  wrun BC KS w ops = option_map fst (irun BC KS (w_inst w) (calls ops)).
+Proof.
+  intros BC KS name keybuf ivbuf w ops H. split.
+  - exact (wnew_frame name keybuf ivbuf w H).
+  - exact (owner_values BC KS ops w).
+Qed.
+Print Assumptions c16_owner_values.
 
 (* ---- source tie: the tail helper xorBytes, regenerated from x/cipher/block.go on every run ---- *)
 From Coq Require Import ZArith.
